@@ -107,9 +107,7 @@ def run_prefix(prefix: dict | None) -> None:
         import c11sim
 
         for s in prefix["ids"]:
-            c = c11sim.gen_case(prefix["seed"], s)
-            c["eval_order"] = c11sim.eval_order(c, prefix["wid"])
-            c11sim.run_one_case(c)
+            c11sim.run_any(c11sim.make_case(prefix["seed"], s, prefix["wid"]))
 
 
 def serve() -> None:
@@ -161,10 +159,11 @@ def main() -> None:
             else:
                 import c11sim
 
-                case = c11sim.gen_case(args["seed"], args["s"])
+                case = c11sim.make_case(args["seed"], args["s"], args["wid"])
                 case["hashseed"] = args["hashseed"]
-                case["eval_order"] = c11sim.eval_order(case, args["wid"])
-                res = c11sim.run_one_case(case)
+                res = c11sim.run_any(case)
+                if case.get("kind") == "inter":
+                    case = c11sim.explicit_inter(case)
                 out.write(json.dumps({"t": "regen", "case": case, "xv": res["xv"], "xd": res["xd"]}) + "\n")
         elif mode == "run":
             if args["prop"] in ("C14", "C02", "C04"):
